@@ -56,7 +56,15 @@ def build(types, defined=()):
     """defined: mapped names that the project ALSO defines as serde structs (a project type with a custom wire format, mapped to
     what it looks like in JSON); all other mapped names are foreign types, as with PathBuf / Uuid in real use"""
     files = c05.build_batch(types, external=[n for n in NAMES if n not in defined])
-    return [(files[0][0], files[0][1] + OTHERS)]
+    text = files[0][1]
+    for n in defined:
+        # the project's own definition of a mapped name has a field of a type that nothing else mentions: the mapped type is
+        # replaced everywhere, so what only its fields reach is not part of the surface either
+        plain = "pub struct %s {\n    pub a: i32,\n}" % n
+        if plain in text:
+            text = text.replace(plain, "pub struct %s {\n    pub a: i32,\n    pub via: OnlyVia%s,\n}" % (n, n), 1)
+            text += rg.struct_src("OnlyVia" + n, [("deep", "i32")])
+    return [(files[0][0], text + OTHERS)]
 
 
 def id_tokens(text):
@@ -111,6 +119,9 @@ def run_case(a):
                 if part not in NEAR_MISS:
                     forbidden.add(part)
                     forbidden.add(part + "Schema")
+        for n in defined:
+            forbidden.add("OnlyVia" + n)
+            forbidden.add("OnlyVia" + n + "Schema")
         for f, text in oa.texts.items():
             left = id_tokens(text) & forbidden
             if left:
@@ -123,8 +134,9 @@ def run_case(a):
                 if f not in oa.texts or f not in ob.texts:
                     viol.append(("C18 file-set-differs file=%s" % f, "%s exists only in the %s run" % (f, "mapped" if f in oa.texts else "unmapped"), None))
                     continue
-                da = [c for c in decl_multiset(common.strip_ts(oa.texts[f])) if not is_probe_decl(c, table)]
-                db = [c for c in decl_multiset(common.strip_ts(ob.texts[f])) if not is_probe_decl(c, table)]
+                involved = set(table) | {"OnlyVia" + n for n in defined}       # what only a mapped type's fields reach goes with it
+                da = [c for c in decl_multiset(common.strip_ts(oa.texts[f])) if not is_probe_decl(c, involved)]
+                db = [c for c in decl_multiset(common.strip_ts(ob.texts[f])) if not is_probe_decl(c, involved)]
                 if da != db:
                     only_a = [" ".join(c[:12]) for c in da if c not in db][:2]
                     only_b = [" ".join(c[:12]) for c in db if c not in da][:2]
